@@ -127,7 +127,10 @@ impl RedirectionLoop {
             // If the url cannot be parsed, let's treat it as a relative Url.
             // Otherwise, we check if the corresponding domain is registered in the project.
             if let Ok(url) = Url::parse(&current_url) {
-                if !project_domains.is_empty() && !project_domains.contains(&url.host_str().unwrap().to_string()) {
+                // a target without host (mailto:, data: ...) is not a project domain either
+                let in_project = url.host_str().map(|host| project_domains.contains(&host.to_string())).unwrap_or(false);
+
+                if !project_domains.is_empty() && !in_project {
                     // The current url target a domain that is not registered in the project.
                     // So we consider there is no redirection loop here.
                     break;
